@@ -36,13 +36,17 @@ BoundOK == Bound /\ Match
            re-registration there and, because of the `break`, on every ancestor above;
    ORPHAN  a live object stored in some node but not in its OWN node: the duplicate that register_path
            returns for an already valid path, stored later by register_relation; invalidate_location
-           reaches objects through their own node only, so the copy survives (or the recursion never ends). *)
+           reaches objects through their own node only, so the copy survives (or the recursion never ends);
+   HOLE    a path is still reported on a location although one of its ancestors is not: invalidate_location
+           descends into a child only through a LIVE object of that child, so when the child's objects were
+           already invalidated through another node (a relation) everything beneath the child is skipped.  *)
 StoredAt(i, p) == InSeq(locs[p][dl[i].loc], i)
 Orphan(i) == dl[i].type # "INVALID" /\ ~StoredAt(i, dl[i].path)
 CellCause(p, l) ==
   IF CellOK(p, l) THEN 0
   ELSE IF Exp(p, l) \in {"reg", "rel"} /\ \E q \in Under(p) : StaleAt(q, l) THEN 1
   ELSE IF Exp(p, l) = "no" /\ \A k \in 1..Len(locs[p][l]) : dl[locs[p][l][k]].type # "INVALID" => Orphan(locs[p][l][k]) THEN 2
+  ELSE IF Exp(p, l) = "no" /\ \E q \in AncSelf(p) \ {p} : InSeq(nodes, q) /\ Live(Pack, q, l) = <<>> THEN 3
   ELSE 9
 ErrCause == IF err = "none" THEN 0 ELSE IF \E i \in DOMAIN dl : Orphan(i) /\ \E p \in Paths : StoredAt(i, p) THEN 2 ELSE 9
 \* (after an exception only the exception is judged: the operation did not complete)
